@@ -378,13 +378,11 @@ theorem sliceOf_eq (sl : BRange) (incl : Bool) (kvs : List KV) :
 
 /-- **the sliced iterator refines the cursor over the slice** (over any well-formed block), and never sets `err` -/
 theorem run_slice (L : Layout b kvs off R rs) (hc : LawfulCmp cmp) (hsorted : StrictSorted cmp kvs)
-    (sl : BRange) (incl : Bool) (hne : kvs ≠ [] ∨ sl.start = none) (cs : List (Call Bytes)) :
+    (sl : BRange) (incl : Bool) (cs : List (Call Bytes)) :
     BIter.run cmp b (newBlockIter cmp b (some sl) incl) cs =
       ((Cursor.run (sliceOf cmp sl incl kvs) (geK cmp) .soi cs).map fun o => (o.isSome, o)) ∧
     (BIter.exec cmp b (newBlockIter cmp b (some sl) incl) cs).err = none := by
   obtain ⟨start, limit⟩ := sl
-  have hne' : kvs ≠ [] ∨ start = none := hne
-  clear hne
   -- the non-degenerate path: a `Mid` iterator after the start stage
   have main : ∀ (bi : BIter) (q0 : Nat), Mid kvs off R rs bi (loOf cmp start kvs) kvs.length q0 R →
       BIter.run cmp b (match limit with
@@ -409,10 +407,6 @@ theorem run_slice (L : Layout b kvs off R rs) (hc : LawfulCmp cmp) (hsorted : St
   cases start with
   | none => exact main (BIter.new b) 0 (Mid.new L)
   | some s =>
-    have hkne : kvs ≠ [] := by
-      rcases hne' with h | h
-      · exact h
-      · cases h
     by_cases hlt : (kvs.takeWhile (belowK cmp s)).length < kvs.length
     · obtain ⟨q0, M⟩ := applyStart_found (cmp := cmp) L hc hsorted s hlt
       exact main _ q0 M
@@ -438,6 +432,6 @@ theorem run_slice (L : Layout b kvs off R rs) (hc : LawfulCmp cmp) (hsorted : St
         | none => rfl
         | some l => simp only [hskip l]
       rw [hnb, hempty]
-      exact ⟨deg_run L hkne cs hdeg, deg_exec L hkne cs hdeg⟩
+      exact ⟨deg_run L cs hdeg, deg_exec L cs hdeg⟩
 
 end GoLevel.C13
